@@ -62,6 +62,10 @@ var (
 	lastFail   *failure
 )
 
+// ShrinkTime, when set, overrides rapid's shrinking budget (checks that have
+// their own structural reducer set it very low).
+var ShrinkTime string
+
 // FailCase records the failing case and fails the rapid test.
 func FailCase(t *rapid.T, kind string, c any, format string, args ...any) {
 	msg := fmt.Sprintf(format, args...)
@@ -78,9 +82,12 @@ func RunRapid(rec *ev.Recorder, name string, checks int, stream int, prop func(*
 	flag.Set("rapid.checks", strconv.Itoa(checks))
 	flag.Set("rapid.seed", strconv.FormatUint(rec.Seed(stream), 10))
 	flag.Set("rapid.nofailfile", "true")
-	if os.Getenv("VERIF_SHRINKTIME") != "" {
+	switch {
+	case ShrinkTime != "":
+		flag.Set("rapid.shrinktime", ShrinkTime)
+	case os.Getenv("VERIF_SHRINKTIME") != "":
 		flag.Set("rapid.shrinktime", os.Getenv("VERIF_SHRINKTIME"))
-	} else {
+	default:
 		flag.Set("rapid.shrinktime", "20s")
 	}
 	lastFailMu.Lock()
